@@ -69,6 +69,7 @@ type aSeries struct {
 type aSource struct {
 	Ext    []pair    `json:"ext"`
 	Series []aSeries `json:"series"`
+	Res    int64     `json:"res"` // blocks only: 0 = raw, > 0 = downsampled to this resolution (ms)
 }
 
 // aTenant is one tenant of the receiver part of a world; aRecv the receiver: its external labels
@@ -98,10 +99,11 @@ type aMatcher struct {
 }
 
 type aReq struct {
-	Ms   []aMatcher `json:"ms"`
-	Rl   []string   `json:"rl"`
-	Mint int64      `json:"mint"`
-	Maxt int64      `json:"maxt"`
+	Ms     []aMatcher `json:"ms"`
+	Rl     []string   `json:"rl"`
+	Mint   int64      `json:"mint"`
+	Maxt   int64      `json:"maxt"`
+	MaxRes int64      `json:"maxres"` // max_resolution_window: 0 = raw data only
 }
 
 func chunkMin(k int) int64 { return int64(k)*slotW + slotW/4 }
@@ -237,7 +239,7 @@ func buildWorld(w aWorld) (*built, error) {
 	b.bkt = objstore.NewInMemBucket()
 	var blocks []world.Block
 	for _, ab := range w.Blocks {
-		blocks = append(blocks, world.Block{Ext: ab.ext(), Series: ab.series(), ChunkRange: slotW})
+		blocks = append(blocks, world.Block{Ext: ab.ext(), Series: ab.series(), ChunkRange: slotW, Resolution: ab.Res})
 	}
 	if _, err := world.UploadBlocks(context.Background(), b.bkt, dir, blocks); err != nil {
 		return nil, err
@@ -430,6 +432,10 @@ func seriesReq(r aReq, rbatch int) *storepb.SeriesRequest {
 func seriesReqOpt(r aReq, rbatch int, skip, hints bool) *storepb.SeriesRequest {
 	q := seriesReq(r, rbatch)
 	q.SkipChunks = skip
+	// downsampled data allowed up to 1h resolution, all aggregates (what the querier sends with
+	// --query.auto-downsampling); stores without downsampled data ignore both
+	q.MaxResolutionWindow = r.MaxRes
+	q.Aggregates = []storepb.Aggr{storepb.Aggr_COUNT, storepb.Aggr_SUM, storepb.Aggr_MIN, storepb.Aggr_MAX, storepb.Aggr_COUNTER}
 	if hints {
 		q.QueryHints = &storepb.QueryHints{StepMillis: 60000, Func: &storepb.Func{Name: "rate"}, Range: &storepb.Range{Millis: 300000},
 			Grouping: &storepb.Grouping{By: true, Labels: []string{"a"}}}
@@ -533,6 +539,12 @@ func concretise(rnd *rand.Rand, aw absWorld) aWorld {
 	w.Blocks = []aSource{{Ext: blockExt(ext), Series: subsetSeries(rnd, aw.Series, true)}}
 	if rnd.Intn(2) == 0 {
 		w.Blocks = append(w.Blocks, aSource{Ext: blockExt(variantExt(rnd, ext)), Series: subsetSeries(rnd, aw.Series, false)})
+	}
+	// phase 2: some blocks are really downsampled (5m aggregate chunks)
+	for i := range w.Blocks {
+		if rnd.Intn(4) == 0 {
+			w.Blocks[i].Res = 300000
+		}
 	}
 	// receiver: tenant label from the common universe (so that it collides with stored, external and
 	// replica labels), tenant ids from the value universe; the second tenant may be empty
@@ -719,7 +731,7 @@ func concretiseReq(rnd *rand.Rand, ar absReq) aReq {
 	if rl == nil {
 		rl = []string{}
 	}
-	return aReq{Ms: ms, Rl: rl, Mint: mint, Maxt: maxt}
+	return aReq{Ms: ms, Rl: rl, Mint: mint, Maxt: maxt, MaxRes: []int64{0, 300000, 3600000, 3600000}[rnd.Intn(4)]}
 }
 
 // genWorldCases yields (world, request) cases: nWorldsTLC worlds sampled from TLC's abstract
